@@ -33,7 +33,7 @@ func runSelftest(args []string) int {
 	bad := 0
 	for _, r := range results {
 		if r.ok {
-			fmt.Printf("selftest ok    %s\n", r.name)
+			fmt.Printf("selftest ok    %s  %s\n", r.name, r.msg)
 		} else {
 			bad++
 			fmt.Printf("selftest FAIL  %s: %s\n", r.name, r.msg)
@@ -184,6 +184,21 @@ func runMutants(dir, only, prop string, par int, withSeeded bool) []mutantResult
 				return
 			}
 			r.ok = caught
+			if caught {
+				// name the first two obligations that reported it (for the tables in DESIGN.md)
+				var by []string
+				for _, o := range outs {
+					for _, ln := range strings.Split(o, "\n") {
+						if strings.HasPrefix(ln, "VIOLATION property=") && len(by) < 2 {
+							f := strings.Fields(ln)
+							if len(f) >= 3 {
+								by = append(by, f[1][len("property="):]+":"+strings.TrimSuffix(filepath.Base(strings.TrimPrefix(f[2], "replay=")), ".json"))
+							}
+						}
+					}
+				}
+				r.msg = strings.Join(by, " ")
+			}
 			if !caught {
 				r.msg = "mutant verifies or fails elsewhere; expected " + strings.Join(expects, " | ") + "\n" + truncate(strings.Join(outs, "\n"), 1500)
 			}
